@@ -480,7 +480,7 @@ def run_jobs(jobs, workers):
     import multiprocessing as mp
     ctx = mp.get_context("spawn")
     with ctx.Pool(workers, initializer=_pool_init) as pool:
-        return list(pool.imap(_run_probe, jobs, chunksize=4))
+        return list(pool.imap(_run_probe, jobs, chunksize=2))
 
 
 # =====================================================================================================
@@ -566,6 +566,18 @@ def run(ctx: Ctx) -> int:
         ns = 0 if (is_annotation(r) and any(k in PAULI_KINDS for k in r.pat)) else n_stim
         for s in sets:
             jobs.append((r.key, s, probe_text(r, s), s == "det", ns, ctx.rng.getrandbits(31)))
+    # most expensive first (forced sampling runs once per noise assignment): keeps the pool's tail short
+    def cost(job):
+        r = next(x for x in rows if x.key == job[0])
+        g = r.gd
+        if g.is_noisy_gate and not g.produces_measurements and not g.takes_pauli_targets:
+            return (16 if g.is_two_qubit_gate else 4) ** (len(r.pat) // (2 if g.is_two_qubit_gate else 1))
+        return 1
+    key_cost = {}
+    for j in jobs:
+        if j[0] not in key_cost:
+            key_cost[j[0]] = cost(j)
+    jobs.sort(key=lambda j: -key_cost[j[0]])
     workers = int(os.environ.get("C12_WORKERS", "8"))
     ctx.log(f"{len(idx)} rows, {len(jobs)} probe circuits, {workers} workers")
     results = run_jobs(jobs, workers)
